@@ -110,10 +110,12 @@ class C07(Check):
             return [
                 SubSpace("multi/p7/d3", mw, ("X", "L", "EL", "EL1", "E", "E1"), MULTI7, 3),
                 SubSpace("multi/p7-small/d4", mw, ("X", "L"), MULTI7_SMALL, 4),
+                SubSpace("multi/twin/d3", mw, ("X", "L"), spaces.MULTI_TWIN, 3),
             ]
         return [
             SubSpace("multi/p7/d4", mw, ("X", "L", "EL", "EL1", "E", "E1"), MULTI7, 4),
             SubSpace("multi/p7-small/d5", mw, ("X", "L"), MULTI7_SMALL, 5),
+            SubSpace("multi/twin/d4", mw, ("X", "L"), spaces.MULTI_TWIN, 4),
         ]
 
     def judge(self, tr):
